@@ -1134,8 +1134,11 @@ impl VM {
                 if let Some(ptr) = result_ptr {
                     vm.ops.jump(*ptr)?;
                     vm.run(env)?;
-                    let (result_val, result_pos) = vm.pop()?;
-                    self.push(result_val, result_pos)?;
+                    // The result is the value of this expression: like a
+                    // function call's, it is positioned here and not where
+                    // the module computed it.
+                    let (result_val, _) = vm.pop()?;
+                    self.push(result_val, pos)?;
                 } else {
                     self.push(Rc::new(vm.symbols_to_tuple(false)), pos)?;
                 }
